@@ -959,6 +959,10 @@ def get_comment_style(path: StrPath) -> Optional[Type[CommentStyle]]:
             Optional[Type[CommentStyle]],
             EXTENSION_COMMENT_STYLE_MAP_LOWERCASE.get(path.suffix.lower()),
         )
+    # Only 'FILE.license', spelled like that, is the companion of FILE, the
+    # whole of which is replaced. 'zlib.LICENSE' is a file like any other.
+    if style is EmptyCommentStyle and path.suffix != ".license":
+        style = None
     return style
 
 
